@@ -4505,10 +4505,10 @@ def r19_9(ctx):
     p = ctx.method(D, 'poll_at')
     cands = [cb for cb in F.closures_of(p.key) if 'Option<' in cb.locals[0]['ty'] and 'PollAt' in cb.locals[0]['ty']]
     if not cands:
-        from .c13 import _min_loop
-        ctx.need(_min_loop(F, p), "per-query deadline closure (filter_map) or loop in dns::poll_at")
-        ctx.note("dns::poll_at is written as a loop: the Pending arm is covered by R13.1's loop form") if hasattr(ctx, 'note') else None
-        ctx.ok(('dns::poll_at', 'loop form'))
+        from ..loops import loops
+        ctx.need(loops(p), "per-query deadline closure (filter_map) or loop in dns::poll_at")
+        # written as an explicit loop over the queries: this clause is not decided for that form (R13.1 covers the minimum)
+        ctx.ok(('dns::poll_at', 'loop form'), sample=dict(fn='dns::poll_at', form='explicit loop; Pending-arm clause not decided for this form'))
         return
     cb = cands[0]
     pend = guard_edges(F, cb, lambda f: (f[0] == 'is' and f[2] == 'Pending') or (f[0] == 'isnot' and 'Pending' not in f[2] and f[3].endswith('dns::State') and len(f[2]) >= 2))
